@@ -282,8 +282,12 @@ class Mailbox:
                     self.send(x)
                 except Exception as e:
                     # Inform the source we're going down
-                    iterable.throw(e)
-                    raise
+                    try:
+                        iterable.throw(e)
+                    except StopIteration:
+                        # The source swallowed the exception and finished
+                        pass
+                    raise e
                 i += 1
 
         except Exception as e:
@@ -516,8 +520,12 @@ def divide_outputs(
                     mailboxes[d].send(x)
             except Exception as e:
                 # Inform the source we're going down
-                source.throw(e)
-                raise
+                try:
+                    source.throw(e)
+                except StopIteration:
+                    # The source swallowed the exception and finished
+                    pass
+                raise e
             i += 1
 
     except Exception as e:
